@@ -1026,10 +1026,11 @@ LIT = {"L9": "9", "L3": "3.0", "L03": "0.3", "Ly": "0.0 1.0 4.0 9.0 16.0 144.0",
 VPOS = {1: ("Tabulation", "nr", "{}"), 2: ("Tabulation", "cutoff_rho", "{}"),
         3: ("Pair", "Al-Cu", "as.buck 1000.0 {} 32.0"), 4: ("Pair", "Cu-Cu", "sum(as.polynomial 1 {0}, f {0}, tf)"),
         5: ("Potential-Form", "f(r,a)", "a*r + {}"), 6: ("Species", "Al.lattice_constant", "{}"),
-        7: ("Table-Form:tf", "y", "{}"), 8: ("EAM-Embed", "Al", "as.polynomial {} 1"), 9: ("EAM-Density", "Al", "as.polynomial {} 1")}
-VPOS_LIT = {1: "L9", 2: "L3", 3: "L03", 4: "L03", 5: "L03", 6: "L3", 7: "Ly", 8: "L9", 9: "L03"}
-VKEYLIKE = {1: "A-B", 2: "x", 3: "nr", 4: "cutoff", 5: "target", 6: "y", 7: "dr", 8: "drho", 9: "interpolation"}
-VCONTEXT = [("Tabulation", ["target : {target}", "nrho : 5"]), ("Table-Form:tf", ["x : 0.0 1.0 2.0 3.0 4.0 12.0"]),
+        7: ("Table-Form:tf", "y", "{}"), 8: ("EAM-Embed", "Al", "as.polynomial {} 1"), 9: ("EAM-Density", "Al", "as.polynomial {} 1"),
+        10: ("Tabulation", "target", "{}")}
+VPOS_LIT = {1: "L9", 2: "L3", 3: "L03", 4: "L03", 5: "L03", 6: "L3", 7: "Ly", 8: "L9", 9: "L03", 10: "Ltarget"}
+VKEYLIKE = {1: "A-B", 2: "x", 3: "nr", 4: "cutoff", 5: "target", 6: "y", 7: "dr", 8: "drho", 9: "interpolation", 10: "lattice_type"}
+VCONTEXT = [("Tabulation", ["nrho : 5"]), ("Table-Form:tf", ["x : 0.0 1.0 2.0 3.0 4.0 12.0"]),
             ("Potential-Form", []), ("Pair", []), ("Species", []), ("EAM-Embed", ["Cu : as.polynomial 2 1"]), ("EAM-Density", ["Cu : as.polynomial 1 1"])]
 
 
@@ -1041,6 +1042,7 @@ def vars_partner(p, P):
 def vars_render(case, target):
     """(templated text, substituted text)"""
     P, scheme, extra = set(case["P"]), case["scheme"], case["extra"]
+    LIT["Ltarget"] = target
     variables = {}
     hole = {}
     helpers = {}        # section -> extra option lines of the templated file (scheme ownkey)
@@ -1101,7 +1103,9 @@ def _vars_one(idx):
     out = dict(idx=idx, bad=[], n=0)
     d = tempfile.mkdtemp(prefix="verif-vars-")
     try:
-        for target in ("LAMMPS", "setfl", "GULP", "DL_POLY_EAM")[: 4 if idx % 3 == 0 else 2]:
+        # the documented synonym spellings of a target are literals like any other
+        tgts = [("LAMMPS", "lammps_eam_alloy", "GULP", "DL_POLY_EAM"), ("LAMMPS", "setfl", "GULP", "LAMMPS_eam_alloy")][idx % 2] if 10 in case["P"] else ("LAMMPS", "setfl", "GULP", "DL_POLY_EAM")
+        for target in tgts[: 4 if idx % 3 == 0 else 2]:
             templ, subst = vars_render(case, target)
             want = tabulate_text(subst)
             routes = ["api", "cli"]
@@ -1217,10 +1221,11 @@ def dup_variants(opname, fam):
     for k in keys:
         if "->" in k:
             a, b = k.split("->")
-            forms = {"same": [k], "ws": ["%s -> %s" % (a, b), "%s-> %s" % (a, b), "%s ->%s" % (a, b)]}
+            # blanks and tabs, and the other characters str.strip() treats as whitespace (no-break space, form feed, vertical tab)
+            forms = {"same": [k], "ws": ["%s -> %s" % (a, b), "%s-> %s" % (a, b), "%s ->%s" % (a, b), "%s\u00a0->%s" % (a, b), "%s->\x0c%s" % (a, b), "%s\x0b->\u2009%s" % (a, b)]}
         elif "-" in k and sec != "Potential-Form":
             a, b = k.split("-")
-            forms = {"same": [k], "ws": ["%s - %s" % (a, b), "%s -%s" % (a, b), "%s\t-%s" % (a, b)], "rev": ["%s-%s" % (b, a)] if a != b else [],
+            forms = {"same": [k], "ws": ["%s - %s" % (a, b), "%s -%s" % (a, b), "%s\t-%s" % (a, b), "%s\u00a0-%s" % (a, b), "%s-\x0c%s" % (a, b)], "rev": ["%s-%s" % (b, a)] if a != b else [],
                      "revws": ["%s - %s" % (b, a), "%s- %s" % (b, a)] if a != b else []}
         elif sec == "Potential-Form":
             return [(orig, sp) for sp in spellings]
